@@ -11,16 +11,11 @@ ASSUMPTIONS = [
     "CONNECT decoding is local only on buffers framed to the declared extent (open finding: it reads past the extent otherwise)",
 ]
 
-CLAUSES = ("no_panic", "consumed", "spec_equiv", "local", "local_connect", "detect_agrees")
+CLAUSES = ("no_panic", "consumed", "spec_equiv", "local", "local_connect", "detect_agrees", "detect_view", "stream_read", "forwardable")
 
 
-def run(ck):
-    ck.coq()
-    if not ck.build_harness("codecdec"):
-        return
-    extra = ["-replay", os.path.abspath(ck.replay)] if ck.replay else []   # the harness runs in .work/
-    path, _ = ck.harness("c02", extra=extra)
-    lines = ck.model("codecdec", "c02", path)
+def judge(ck, path, lines):
+    """turns the model runner's verdict lines and the harness's direct lines into verdicts"""
     # index the case lines that are referred to by a verdict line
     wanted = set()
     for l in lines:
@@ -52,9 +47,10 @@ def run(ck):
 
     witnessed = False
     for l in direct_fail:
-        # direct ownership FAIL case=<id> ... / direct reencode FAIL case=<id> ...
+        # direct <clause> FAIL case=<id> ...   (clauses decided on the implementation alone, in the harness)
         clause = ("ownership" if (l.startswith("direct ownership") or l.startswith("direct stream_ownership"))
-                  else "no_panic" if l.startswith("direct type_new") else "spec_equiv" if l.startswith("direct spec_equiv") else "reencodable")
+                  else "no_panic" if l.startswith("direct type_new") else "spec_equiv" if l.startswith("direct spec_equiv")
+                  else "stream_read" if l.startswith("direct stream_read") else "reencodable")
         k = l.split("case=", 1)[1].split(" ", 1)[0] if "case=" in l else None
         ck.fail_input(clause, l, ([case_of(k)] if k else []) + [l])
         witnessed = True
@@ -77,7 +73,48 @@ def run(ck):
             ks.append(case_of(l.split(" ", 2)[1]))
             ks.append(l)
         ck.fail_unwitnessed("correspondence Codec/Dec.v ~ packet.Decode/DetectPacket (%d disagreeing cases)" % len(tie_only), ks)
+
+
+def fuzz(ck, seconds):
+    """thorough tier: time-boxed `go test -fuzz` (coverage-guided); a crasher of its in-process oracle is a
+    failing input; every input it kept for new coverage then goes through the whole differential run"""
+    import glob
+    import shutil
+    import vcheck
+    god = os.path.join(vcheck.VERIF, "go")
+    modfile = os.path.join(ck.work, "go.mod")
+    crash_dir = os.path.join(god, "cmd", "codecdec", "testdata")
+    shutil.rmtree(crash_dir, ignore_errors=True)
+    rc, out = vcheck.sh(["go", "test", "-modfile", modfile, "-tags", "verif", "-run", "^$", "-fuzz", "FuzzDecode",
+                         "-fuzztime", "%ds" % seconds, "./cmd/codecdec"], cwd=god, env=vcheck.GOENV, timeout=seconds + 900)
+    ck.extra["fuzz_tail"] = out.strip()[-400:]
+    crashers = glob.glob(os.path.join(crash_dir, "fuzz", "FuzzDecode", "*"))
+    rc2, cache = vcheck.sh(["go", "env", "GOCACHE"], cwd=god, env=vcheck.GOENV)
+    corpus = os.path.join(cache.strip().splitlines()[-1], "fuzz", "verifh", "cmd", "codecdec", "FuzzDecode")
+    ck.extra["fuzz_corpus_entries"] = len(glob.glob(os.path.join(corpus, "*")))
+    for d, name in ((os.path.join(crash_dir, "fuzz", "FuzzDecode"), "fuzzcrash.txt"), (corpus, "fuzzcorpus.txt")):
+        if os.path.isdir(d) and os.listdir(d):
+            path, _ = ck.harness("c02", out_name=name, extra=["-replay", d])
+            judge(ck, path, ck.model("codecdec", "c02", path))
+    if crashers and not ck.violations:
+        # the in-process oracle failed but the differential run does not reproduce it
+        ck.fail_unwitnessed("go test -fuzz FuzzDecode oracle: " + out.strip()[-600:], [open(c).read() for c in crashers[:3]])
+    elif rc != 0 and not crashers:
+        ck.notes.append("go test -fuzz did not run: " + out[-1500:])
+        ck.broken.append("go test -fuzz FuzzDecode failed to run: " + out.strip()[-300:])
+    shutil.rmtree(crash_dir, ignore_errors=True)
+
+
+def run(ck):
+    ck.coq()
+    if not ck.build_harness("codecdec"):
+        return
+    extra = ["-replay", os.path.abspath(ck.replay)] if ck.replay else []   # the harness runs in .work/
+    path, _ = ck.harness("c02", extra=extra)
+    lines = ck.model("codecdec", "c02", path)
+    judge(ck, path, lines)
     if ck.tier == "thorough" and not ck.replay:
+        fuzz(ck, 90)
         ck.coqchk(["GM.Props.C02"])
     ck.evaluations = ck.stats.get("model_cases", 0) + ck.stats.get("ownership_checks", 0) + ck.stats.get("reencode_checks", 0) + ck.stats.get("stream_ownership_checks", 0)
     ck.distinct = ck.stats.get("model_distinct", 0)
